@@ -390,17 +390,33 @@ def splitJoinCond : Nat → Expr → List Expr
     | .fn "horizontal_all" args _ _ => args.flatMap (splitJoinCond f)
     | e => [e]
 
-/-- the suffix loop of `join` (pipe/verbs.py): the counter is advanced while iterating the *set*
-    of right names in `order`; earlier names are not re-checked (finding D12) -/
-def suffixCounter (leftNames : List String) (suffix : String) (order : List String) : Nat :=
-  order.foldl (fun cnt name =>
-    let rec bump (fuel cnt : Nat) : Nat :=
-      match fuel with
-      | 0 => cnt
-      | f + 1 =>
-        let s := name ++ suffix ++ (if cnt > 0 then s!"_{cnt}" else "")
-        if leftNames.contains s then bump f (cnt + 1) else cnt
-    bump (leftNames.length + 1) cnt) 0
+/-- the suffix loop of `join` (pipe/verbs.py): the smallest counter for which no suffixed right name
+    is a left name (after the repair of D12 the result does not depend on set iteration order) -/
+def suffixed (suffix : String) (cnt : Nat) (name : String) : String :=
+  name ++ suffix ++ (if cnt > 0 then s!"_{cnt}" else "")
+
+def suffixCounterGo (leftNames : List String) (suffix : String) (rightNames : List String) : Nat → Nat → Nat
+  | 0, cnt => cnt
+  | f + 1, cnt =>
+    if rightNames.any (fun n => leftNames.contains (suffixed suffix cnt n)) then
+      suffixCounterGo leftNames suffix rightNames f (cnt + 1)
+    else cnt
+
+def suffixCounter (leftNames : List String) (suffix : String) (rightNames : List String) : Nat :=
+  suffixCounterGo leftNames suffix rightNames (leftNames.length * rightNames.length + 1) 0
+
+/-- automatic suffixing of the right table's names (`join` without a user suffix): which right
+    names are renamed to what; `ValueError` from the `rename` verb when a new name hits an
+    untouched right name -/
+def autoSuffixMap (leftNames rightNames rightOnNames : List String) (suffix0 : String) :
+    Except Err (List (String × String)) :=
+  let cnt := suffixCounter leftNames suffix0 rightNames
+  let collideOutsideOn := rightNames.any (fun n => !rightOnNames.contains n && leftNames.contains n)
+  let toRename := if !collideOutsideOn then rightNames.filter leftNames.contains else rightNames
+  let nm := toRename.map (fun n => (n, suffixed suffix0 cnt n))
+  -- the `rename` verb is applied to the right table with all of its checks
+  let untouched := rightNames.filter (fun n => !nm.any (·.1 == n))
+  if untouched.any (fun n => nm.any (·.2 == n)) then .error .value else .ok nm
 
 def applyVerb (env : Env) (srcVar : String) (call : VerbCall) : Except Err (Tbl × Env) :=
   match env.table? srcVar with
@@ -584,16 +600,9 @@ def applyVerb (env : Env) (srcVar : String) (call : VerbCall) : Except Err (Tbl 
             pure (tb, env2)
         | none =>
             if rightNames.any leftNames.contains then
-              let cnt := suffixCounter leftNames suffix0 spec.setOrder
-              let suffix := if cnt > 0 then suffix0 ++ s!"_{cnt}" else suffix0
               let onUids := on0.flatMap Expr.uids
               let rightOnNames := r0.cache.nameToUuid.filter (fun e => onUids.contains e.2) |>.map (·.1)
-              let collideOutsideOn := rightNames.any (fun n => !rightOnNames.contains n && leftNames.contains n)
-              let toRename := if !collideOutsideOn then rightNames.filter leftNames.contains else rightNames
-              let nm := toRename.map (fun n => (n, n ++ suffix))
-              -- the `rename` verb is applied to the right table with all of its checks
-              let untouched := rightNames.filter (fun n => !nm.any (·.1 == n))
-              if untouched.any (fun n => nm.any (·.2 == n)) then throw .value
+              let nm ← autoSuffixMap leftNames rightNames rightOnNames suffix0
               let (rn, env1) := env.freshNode
               let (tb, env2) ← finishVerb env1 (.rename rn r0.ast nm) r0
               pure (tb, env2)
